@@ -372,11 +372,11 @@ func (e *encoderState) WriteToken(t Token) error {
 			break
 		}
 		if e.Tokens.Last.NeedObjectName() {
+			if !e.Tokens.Last.isValidNamespace() {
+				err = errInvalidNamespace // check before updating e.Names
+				break
+			}
 			if !e.Flags.Get(jsonflags.AllowDuplicateNames) {
-				if !e.Tokens.Last.isValidNamespace() {
-					err = errInvalidNamespace
-					break
-				}
 				if e.Tokens.Last.isActiveNamespace() && !e.Namespaces.Last().insertQuoted(b[pos:], false) {
 					err = wrapWithObjectName(ErrDuplicateName, b[pos:])
 					break
@@ -476,10 +476,10 @@ func (e *encoderState) AppendRaw(k Kind, safeASCII bool, appendFn func([]byte) (
 
 		// Update the state machine.
 		if e.Tokens.Last.NeedObjectName() {
+			if !e.Tokens.Last.isValidNamespace() {
+				return wrapSyntacticError(e, errInvalidNamespace, pos, +1) // check before updating e.Names
+			}
 			if !e.Flags.Get(jsonflags.AllowDuplicateNames) {
-				if !e.Tokens.Last.isValidNamespace() {
-					return wrapSyntacticError(e, errInvalidNamespace, pos, +1)
-				}
 				if e.Tokens.Last.isActiveNamespace() && !e.Namespaces.Last().insertQuoted(b[pos:], isVerbatim) {
 					err = wrapWithObjectName(ErrDuplicateName, b[pos:])
 					return wrapSyntacticError(e, err, pos, +1)
@@ -557,11 +557,11 @@ func (e *encoderState) WriteValue(v Value) error {
 		err = e.Tokens.appendLiteral()
 	case '"':
 		if e.Tokens.Last.NeedObjectName() {
+			if !e.Tokens.Last.isValidNamespace() {
+				err = errInvalidNamespace // check before updating e.Names
+				break
+			}
 			if !e.Flags.Get(jsonflags.AllowDuplicateNames) {
-				if !e.Tokens.Last.isValidNamespace() {
-					err = errInvalidNamespace
-					break
-				}
 				if e.Tokens.Last.isActiveNamespace() && !e.Namespaces.Last().insertQuoted(b[pos:], false) {
 					err = wrapWithObjectName(ErrDuplicateName, b[pos:])
 					break
